@@ -162,7 +162,7 @@ class Check:
     # ---------------------------------------------------------------------- TLC
     def tlc(self, module, cfg, workers=4, timeout=900, env=None, simulate=None, depth=None,
             deque=False, xmx="6g", coverage=False, tag=None, keep_tags=("CASE",),
-            extra=()):
+            extra=(), cases_path=None):
         """Run TLC on spec/<module>.tla with spec/<cfg>.  Returns TLCResult."""
         res = TLCResult()
         tag = tag or os.path.basename(cfg).replace(".cfg", "")
@@ -199,11 +199,21 @@ class Check:
             shutil.rmtree(meta, ignore_errors=True)
         res.wall = time.time() - t
         res.out_path = out_path
+        res.ncases = 0
+        res.case_samples = []
+        cfh = open(cases_path, "w") if cases_path else None
         with open(out_path, errors="replace") as fh:
             for line in fh:
                 line = line.rstrip("\n")
                 m = CASE_RE.match(line)
                 if m:
+                    if cfh is not None and m.group(1) == "CASE":
+                        txt = tla_unescape(m.group(2))
+                        cfh.write(txt + "\n")
+                        res.ncases += 1
+                        if res.ncases in (1, 1000, 20000):
+                            res.case_samples.append(json.loads(txt))
+                        continue
                     if m.group(1) in keep_tags:
                         res.tagged.setdefault(m.group(1), []).append(
                             json.loads(tla_unescape(m.group(2))))
@@ -224,6 +234,8 @@ class Check:
                     res.violated.append(m.group(2))
                 if line.startswith("Error:"):
                     res.errors.append(line)
+        if cfh is not None:
+            cfh.close()
         self.cov["tlc_runs"].append({
             "cfg": cfg, "generated": res.generated, "distinct": res.distinct,
             "depth": res.depth, "wall_s": round(res.wall, 1), "rc": res.rc,
